@@ -2,8 +2,10 @@
 C19 — Format metadata agrees with what the codecs actually do.
 
 Only the property theorems and non-vacuity examples live here; helper lemmas are in
-`Proofs/FormatTables.lean` and `Proofs/Dither.lean`.  All statements are about the pinned tables
-`FormatTables.lean` and the dataflow model `Dither.lean`; the tie to the library is the C19 stream
+`Proofs/FormatTables.lean` and `Proofs/Dither.lean`.  All statements are about the tables of
+`FormatTables.lean` (header / detection rows translated from the source on every run via `SrcTables.lean`,
+so the `decide` theorems are re-checked for the rows the code has now; format layouts, colours and encoder lists
+pinned) and the dataflow model `Dither.lean`; the tie to the library is the C19 stream
 of check.py (tables: exhaustive; codecs: every format × sizes × dithering modes).
 -/
 import DdsModel.Proofs.FormatTables
@@ -77,7 +79,8 @@ example : formatOfHeader (.fourCC 12345) = .error .fourCC := by rfl
 example : formatOfHeader (.dx10 110 0) = .error .dxgi ∧
     pixelInfoOfHeaderP (.dx10 110 0) = some (.ok (.biPlanar 1 2 4 1)) := ⟨by rfl, by rfl⟩
 
-/-- The range pattern of `DxgiFormat::try_from` accepts exactly the 162 codes of the pinned table. -/
+/-- The range pattern of `DxgiFormat::try_from` accepts exactly the codes of the named `DxgiFormat` constants
+(both translated from the source; no row count is pinned). -/
 theorem dxgi_codes_complete (code : Nat) : dxgiValid code = (dxgiRow? code).isSome := by
   by_cases h : code < 256
   · exact dxgiValid_iff_row code h
